@@ -11,14 +11,16 @@ so that the three clauses of the property are the state predicates
   window    : badWindow = false        exclusive : emitting ≤ 1        no close during emit : badOverlap = false
 and "holds for every schedule, early stop, failure and cancellation" = invariant over `Reachable` (all labels).
 
-Results
-  * concurrent consume, Buffered, JSON pipe: `C02_consume`, `C02_buffered`, `C02_pipe` — all three clauses, every history.
-  * concurrent map: `C02_exclusive_concmap` holds for every history.  The other two clauses are FALSE on the code as it
-    is (known finding D5): `C02_witness_concmap` (Close while the producer is inside Emit) and
-    `C02_witness_concmap_window` (an Emit started after Close), both on explicit 11-step schedules with `Limit(1)`;
-    `C02_concmap_full_false` refutes the full statement, which stays visible as `C02_concmap_full_statement`.
-    `C02_concmap_partial`: the clauses hold in every history in which the consumer drains the stage (its pull observed
-    the result channel closed: end of stream, or cancellation) and, trivially, as long as Close has not been called.
+Results (code as it is: every variant switch `true`)
+  * `C02_concmap`, `C02_consume`, `C02_buffered`, `C02_pipe` — all three clauses, for every history, for each of the
+    four mechanisms.  For the concurrent map this rests on the guard element of fix 784d281: the terminal's close
+    sequence first cancels producerCtx and waits for `producerStopped`, only then closes the source's own elements
+    (`C02_concmap_close_after_join`).
+  * the unrepaired variant (`fix5 = false`: no guard, the producer runs on the materialisation ctx, which is cancelled
+    only after the lifecycle elements were closed) violates two clauses (finding D5): `C02_witness_concmap` (Close while
+    the producer is inside Emit) and `C02_witness_concmap_window` (an Emit started after Close), both on explicit
+    11-step schedules with `Limit(1)`; `C02_concmap_unrepaired_false` refutes the statement for that variant.  What
+    did hold there: `C02_concmap_partial` (histories in which the consumer drains the stage) — still true, now subsumed.
 -/
 import ShpanVerif.Proofs.ConcMapLive
 import ShpanVerif.Proofs.ConcConsumeLive
@@ -39,38 +41,66 @@ theorem C02_exclusive_concmap (hr : Reachable (ConcMap.sys cfg) s) : s.emitting 
   have := (ConcMap.basic hr).emitting_eq
   split at this <;> omega
 
-/-- The full statement of C02 for the concurrent map (all three clauses, every history). -/
-def C02_concmap_full_statement : Prop :=
-  ∀ (cfg : ConcMap.Cfg) (s : ConcMap.St), 0 < cfg.c → Reachable (ConcMap.sys cfg) s →
+/-- **C02 for the concurrent map** (code as it is): window, exclusivity and no-close-during-emit for every schedule,
+    early stop, failure and cancellation. -/
+theorem C02_concmap (hfix : cfg.fix5 = true) (hr : Reachable (ConcMap.sys cfg) s) :
+    s.badWindow = false ∧ s.emitting ≤ 1 ∧ s.badOverlap = false :=
+  ⟨(ConcMap.noBad hfix hr).1, C02_exclusive_concmap hr, (ConcMap.noBad hfix hr).2⟩
+
+/-- The mechanism: the source's Close is called only after the producer signalled that it left the source for good
+    (it is past `close(producerStopped)`), so it is neither inside Emit nor going to call it again. -/
+theorem C02_concmap_close_after_join (hfix : cfg.fix5 = true) (hr : Reachable (ConcMap.sys cfg) s)
+    (hc : s.srcClosed = true) :
+    (s.prod = .closing ∨ s.prod = .waiting ∨ s.prod = .done) ∧ s.emitting = 0 := by
+  have hb := ConcMap.basic hr
+  have hcons := hb.closed_iff.mp hc
+  have hst := hb.joined hfix (by rcases hcons with h | h | h <;> simp [h])
+  have hp := hb.pStop_iff.mp hst
+  refine ⟨hp, ?_⟩
+  have he := hb.emitting_eq
+  rcases hp with h | h | h <;> simpa [h] using he
+
+/-- Non-vacuity: the D5 recipe on the code as it is — Limit(1) satisfied while the producer is inside its second
+    Emit; the consumer's close sequence waits (`closeW`) until the producer has left, then closes the source. -/
+example : ∃ s, Reachable (ConcMap.sys { n := 2, c := 1 }) s ∧
+    (s.srcClosed && !s.badOverlap && !s.badWindow && s.res == some .ok && s.delivered == [0]) = true :=
+  checkRun_reachable
+    (ls := [.pTop, .pEmitVal, .pSend, .pTop, .wRecv, .wMapOk 0, .wSend (.val 0), .cCheck, .cRecv, .cStop, .cClose0,
+            .pEmitVal, .pDrop, .pStop, .cCloseW, .cCloseP]) (by decide)
+
+/-- The statement for the unrepaired variant (fix5 = false). -/
+def C02_concmap_unrepaired_statement : Prop :=
+  ∀ (cfg : ConcMap.Cfg) (s : ConcMap.St), cfg.fix5 = false → 0 < cfg.c → Reachable (ConcMap.sys cfg) s →
     s.badWindow = false ∧ s.emitting ≤ 1 ∧ s.badOverlap = false
 
-/-- D5, first shape: `Map(src, id, WithConcurrentMapOption(1)).Limit(1)` over a 2-element source.  The producer has
-    started its second Emit; element 0 is mapped, delivered, Limit(1) ends the stream with success; the terminal's
-    deferred close calls the source's Close while that Emit is still running. -/
+/-- D5, first shape (unrepaired variant): `Map(src, id, WithConcurrentMapOption(1)).Limit(1)` over a 2-element source.
+    The producer has started its second Emit; element 0 is mapped, delivered, Limit(1) ends the stream with success; the
+    terminal's deferred close calls the source's Close while that Emit is still running. -/
 def d5Schedule : List ConcMap.Label :=
-  [.pTop, .pEmitVal, .pSend, .pTop, .wRecv, .wMapOk 0, .wSend (.val 0), .cCheck, .cRecv, .cStop, .cClose0]
+  [.pTop, .pEmitVal, .pSend, .pTop, .wRecv, .wMapOk 0, .wSend (.val 0), .cCheck, .cRecv, .cStop, .cClose0, .cCloseP]
 
 theorem C02_witness_concmap :
-    ∃ s, Reachable (ConcMap.sys { n := 2, c := 1 }) s ∧
+    ∃ s, Reachable (ConcMap.sys { n := 2, c := 1, fix5 := false }) s ∧
       (s.badOverlap && s.emitting == 1 && s.res == some .ok && s.delivered == [0]) = true :=
   checkRun_reachable (ls := d5Schedule) (by decide)
 
-/-- D5, second shape: the producer is between two pulls when Close is called, and starts an Emit afterwards
-    (the materialisation ctx is cancelled only after the lifecycle elements were closed). -/
+/-- D5, second shape (unrepaired variant): the producer is between two pulls when Close is called, and starts an Emit
+    afterwards (the materialisation ctx is cancelled only after the lifecycle elements were closed). -/
 def d5ScheduleWindow : List ConcMap.Label :=
-  [.pTop, .pEmitVal, .pSend, .wRecv, .wMapOk 0, .wSend (.val 0), .cCheck, .cRecv, .cStop, .cClose0, .pTop]
+  [.pTop, .pEmitVal, .pSend, .wRecv, .wMapOk 0, .wSend (.val 0), .cCheck, .cRecv, .cStop, .cClose0, .cCloseP, .pTop]
 
 theorem C02_witness_concmap_window :
-    ∃ s, Reachable (ConcMap.sys { n := 2, c := 1 }) s ∧ (s.badWindow && s.srcClosed && s.emitting == 1) = true :=
+    ∃ s, Reachable (ConcMap.sys { n := 2, c := 1, fix5 := false }) s ∧
+      (s.badWindow && s.srcClosed && s.emitting == 1) = true :=
   checkRun_reachable (ls := d5ScheduleWindow) (by decide)
 
-theorem C02_concmap_full_false : ¬ C02_concmap_full_statement := by
+theorem C02_concmap_unrepaired_false : ¬ C02_concmap_unrepaired_statement := by
   intro h
   obtain ⟨s, hr, hs⟩ := C02_witness_concmap
-  have := (h { n := 2, c := 1 } s (by decide) hr).2.2
+  have := (h { n := 2, c := 1, fix5 := false } s rfl (by decide) hr).2.2
   simp [this] at hs
 
-/-- What does hold: before Close is called nothing is wrong, and in every history in which the consumer drained the
+/-- Both variants: before Close is called nothing is wrong, and in every history in which the consumer drained the
     stage (its pull saw the result channel closed — the producer has exited by then) Close neither overlaps nor
     precedes an Emit. -/
 theorem C02_concmap_partial (hr : Reachable (ConcMap.sys cfg) s) :
@@ -84,10 +114,11 @@ theorem C02_concmap_partial (hr : Reachable (ConcMap.sys cfg) s) :
   simpa [hdone] using hb.emitting_eq
 
 /-- Non-vacuity of the partial theorem: a failure-free run to the end reaches Close with `drained`. -/
-example : ∃ s, Reachable (ConcMap.sys { n := 1, c := 1 }) s ∧ (s.drained && s.srcClosed && !s.badOverlap) = true :=
+example : ∃ s, Reachable (ConcMap.sys { n := 1, c := 1, fix5 := false }) s ∧
+    (s.drained && s.srcClosed && !s.badOverlap) = true :=
   checkRun_reachable
-    (ls := [.pTop, .pEmitVal, .pSend, .wRecv, .wMapOk 0, .wSend (.val 0), .pTop, .pEmitEof, .pCloseSrc, .wExitClosed,
-            .pWait, .cCheck, .cRecv, .cNext, .cCheck, .cClosed, .cClose0]) (by decide)
+    (ls := [.pTop, .pEmitVal, .pSend, .wRecv, .wMapOk 0, .wSend (.val 0), .pTop, .pEmitEof, .pStop, .pCloseSrc,
+            .wExitClosed, .pWait, .cCheck, .cRecv, .cNext, .cCheck, .cClosed, .cClose0, .cCloseP]) (by decide)
 
 end concmap
 
